@@ -53,6 +53,9 @@ var solvers = []solverSpec{
 }
 
 func parseAnswer(out string) string {
+	if strings.Contains(out, "(error") {
+		return "error"
+	}
 	for _, ln := range strings.Split(out, "\n") {
 		ln = strings.TrimSpace(ln)
 		switch ln {
